@@ -48,9 +48,18 @@ type gCase struct {
 	// make has reached its gate — a request that follows an OPEN then arrives while the handler of that OPEN is
 	// running. (From the first request on that the server cannot take in before a gate is opened, the rest of the
 	// stream is sent in one piece, as in every other case.)
-	Staged bool   `json:"staged,omitempty"`
-	Root   string `json:"-"` // os-backed server: scratch root to (re)build; "" = private temp dir
-	Tag    string `json:"tag,omitempty"`
+	Staged bool `json:"staged,omitempty"`
+	// EndInput (> 0): END OF STREAM as an event of the schedule. The client ends its request stream (half-close: the
+	// replies keep flowing) without waiting for the replies of the requests it has sent — a batch client that has
+	// nothing more to say. Gated mode: the input is closed as soon as the server has taken in the whole request stream
+	// and EndInput-1 gates have been opened (1 = at the earliest moment: with the calls the pipeline could start still
+	// sitting on their gates and the CLOSEs behind them waiting); nothing may be closed (and no context cancelled)
+	// during the grace period that follows (HoldMs, when given, is spent there instead of before the first gate),
+	// the held calls then return in the order of the case, every reply is owed as in any other case, and Serve returns.
+	// Unforced modes: the input is closed right after the last byte of the stream was taken in.
+	EndInput int    `json:"end_input,omitempty"`
+	Root     string `json:"-"` // os-backed server: scratch root to (re)build; "" = private temp dir
+	Tag      string `json:"tag,omitempty"`
 }
 
 // gFault is a problem found while driving the case (as opposed to one found by inspecting the responses).
@@ -85,9 +94,11 @@ type gRun struct {
 	// PageViol: with every request received and some not yet answered, fewer pages were marked in use than requests
 	// were waiting for their reply (each of them owns the page its frame was received into until its reply is sent).
 	PageViol string
-	PipeEnd  int64    // sequence number of the call log when the last reply of the pipeline had been read (clean-up starts here)
-	Effects  []string // os-backed server: state of every object the requests name, after Serve has returned
-	Started  time.Time
+	// EndInfo (cases with EndInput): what the pipeline looked like when the input was closed.
+	EndInfo string
+	PipeEnd int64    // sequence number of the call log when the last reply of the pipeline had been read (clean-up starts here)
+	Effects []string // os-backed server: state of every object the requests name, after Serve has returned
+	Started time.Time
 }
 
 // gCollector takes reply frames off the transport as they arrive.
@@ -500,6 +511,7 @@ func gExec(cs *gCase) *gRun {
 	}
 
 	sim := newSim(reqs)
+	ended := false // the input has been closed (gCase.EndInput)
 	if cs.Mode == "gated" {
 		keysOf := func(ix []int) []string {
 			var ks []string
@@ -521,7 +533,7 @@ func gExec(cs *gCase) *gRun {
 			}
 			return nil
 		}
-		if cs.Grace <= 0 && !cs.Watch && cs.HoldMs <= 0 { // only cases that ask for it (C14)
+		if cs.Grace <= 0 && !cs.Watch && cs.HoldMs <= 0 && cs.EndInput <= 0 { // only cases that ask for it (C14)
 			earlyClose = nil
 		}
 		for step := 0; ; step++ {
@@ -565,7 +577,8 @@ func gExec(cs *gCase) *gRun {
 			}); err != nil {
 				return fault("schedule/close-did-not-run/"+p.Server, fmt.Sprintf("with %d gates opened Close calls [%s] are due: %v", step, strings.Join(closes, " "), err), step)
 			}
-			if len(st) > 0 && ((cs.Grace > 0 && (step == 0 || len(closes) > gracedCloses)) || (cs.HoldMs > 0 && step == 0)) {
+			longHold := cs.HoldMs > 0 && cs.EndInput <= 0 // (with EndInput the long hold follows the end of the input)
+			if len(st) > 0 && ((cs.Grace > 0 && (step == 0 || len(closes) > gracedCloses)) || (longHold && step == 0)) {
 				// nothing else may start while the calls of st sit on their gates: give a missing barrier time to show.
 				// Done with no gate opened yet and again whenever a CLOSE has completed since (the pipeline has moved
 				// on to the requests behind it, the next CLOSE now stands behind the calls held at this moment).
@@ -573,7 +586,7 @@ func gExec(cs *gCase) *gRun {
 				// after some time shows only when the calls in front of it take longer than that).
 				gracedCloses = len(closes)
 				hold := cs.Grace
-				if step == 0 && cs.HoldMs > hold {
+				if step == 0 && longHold && cs.HoldMs > hold {
 					hold = cs.HoldMs
 				}
 				held, cut, err := hub.holdFor(time.Duration(hold)*time.Millisecond, earlyClose)
@@ -606,6 +619,9 @@ func gExec(cs *gCase) *gRun {
 					// every request that has not been answered owns the page its frame was received into, and the
 					// receive loop has taken one more for the frame to come
 					want := n - len(sim.sent) + 1
+					if ended { // (after the end of the input the receive loop is gone; its last page stays marked only until Serve returns)
+						want--
+					}
 					used := 0
 					// (the receive loop takes that page as soon as it is scheduled again: a few microseconds, but on a
 					// loaded machine possibly much longer — the first findings of a process are given 3 s to go away)
@@ -622,8 +638,42 @@ func gExec(cs *gCase) *gRun {
 					}
 					if used < want {
 						gPageHits.Add(1)
-						run.PageViol = fmt.Sprintf("with %d gates opened: %d of %d requests received and not yet answered, %d pages marked in use (each unanswered request holds the page of its frame, the receive loop one more)", step, n-len(sim.sent), n, used)
+						run.PageViol = fmt.Sprintf("with %d gates opened: %d of %d requests received and not yet answered, %d pages marked in use (each unanswered request holds the page of its frame, the receive loop — while the input is open — one more)", step, n-len(sim.sent), n, used)
 					}
+				}
+			}
+			if cs.EndInput > 0 && !ended && step >= cs.EndInput-1 && sim.nextRecv == n && sim.recvHold < 0 {
+				// END OF STREAM: every request has been received (awaitSent above), the calls of st sit on their gates
+				ended = true
+				waiting := 0 // CLOSE requests received and not yet answered
+				for i, o := range p.Ops {
+					if o.K == "close" && run.Routes[i].CloseKey != "" {
+						waiting++
+					}
+				}
+				for _, i := range sim.handled {
+					if run.Routes[i].CloseKey != "" {
+						waiting--
+					}
+				}
+				run.EndInfo = fmt.Sprintf("gates-opened=%d calls-held=%d closes-pending=%d", step, len(st), waiting)
+				srv.CloseInput()
+				hold := max(cs.Grace, 25)
+				if cs.HoldMs > hold {
+					hold = cs.HoldMs
+				}
+				held, cut, err := hub.holdFor(time.Duration(hold)*time.Millisecond, earlyClose)
+				if _, early := err.(earlyCloseErr); early {
+					return earlyFault(err, fmt.Sprintf("%d ms after the END OF THE REQUEST STREAM (input closed with %d gates opened, every request received, replies still owed)", held.Milliseconds(), step))
+				}
+				if cut {
+					run.HoldCut = fmt.Sprintf("the hold of %d ms was ended after %d ms: soft deadline of the run", hold, held.Milliseconds())
+				}
+				if err := hub.waitBlockedUnless(keysOf(st), time.Millisecond, earlyClose); err != nil {
+					if _, early := err.(earlyCloseErr); early {
+						return earlyFault(err, fmt.Sprintf("within %d ms after the END OF THE REQUEST STREAM (input closed with %d gates opened)", hold, step))
+					}
+					return fault("schedule/blocked-set-differs/"+p.Server, "after the end of the request stream: "+err.Error(), step)
 				}
 			}
 			if step >= len(cs.Order) {
@@ -643,6 +693,17 @@ func gExec(cs *gCase) *gRun {
 		}
 	} else {
 		// no forced schedule: every handler returns on its own
+		if cs.EndInput > 0 && cs.Mode != "serial" {
+			if !awaitSent(gWait(k)) {
+				return fault("input/send-blocked/"+p.Server, "the server did not take in the request stream", -1)
+			}
+			if sentErr != nil {
+				return fault("input/send-failed/"+p.Server, sentErr.Error(), -1)
+			}
+			ended = true
+			run.EndInfo = "unforced"
+			srv.CloseInput()
+		}
 		for i := range reqs {
 			sim.finish(i)
 		}
@@ -707,6 +768,9 @@ func gExec(cs *gCase) *gRun {
 		}
 	}
 	toClose = append(toClose, run.Opened...)
+	if ended { // nothing more can be sent: Serve closes what is still open when it returns
+		toClose = nil
+	}
 	for _, hs := range toClose {
 		sid++
 		r, err := hCall(srv, k, wire.Req(wire.Close, sid, wire.B{}.Str(hs)))
